@@ -42,6 +42,15 @@ def corpus(g, rng, tier):
     for e in g.core[::7]:
         words = sg.header_words() + [(5 << 16) | 52, 1, 2, g.opnum[e["name"]], 7]
         yield "OpSpecConstantOp embedding Op%s" % e["name"], b"".join(w.to_bytes(4, "little") for w in words)
+    # every sequence of structural tokens up to length 4 (5 in thorough) as a binary: the loader's bracket logic
+    import itertools
+    from props import c05
+    alpha = c05.alphabet(g, rng)
+    for n in range(1, (5 if tier == "thorough" else 4) + 1):
+        for combo in itertools.product("FEPLTBVM", repeat=n):
+            insts = [alpha[c]() for c in combo]
+            words = sg.header_words() + [w for t in insts for w in sg.spec_encode(t)]
+            yield "token sequence " + "".join(combo), b"".join(w.to_bytes(4, "little") for w in words)
     yield "empty file", b""
     for n in list(range(1, 24)) + [64, 257, 4096]:
         yield "random %d bytes" % n, bytes(rng.randrange(256) for _ in range(n))
